@@ -91,8 +91,9 @@ def evDragDrop : Int := 259
 def evDragStop : Int := 260
 
 inductive LogItem where
-  /-- `run_events_whilefalse(win, …)` was entered: the event was offered to `win` (not printed). -/
-  | offer (kind : Kind) (win : Id) (ev : Ev)
+  /-- `run_events_whilefalse(win, …)` was entered: the event was offered to `win` (not printed).  `shown` is a ghost
+      field: whether `win` and all its ancestors were visible at that moment (`visibleChain`). -/
+  | offer (kind : Kind) (win : Id) (ev : Ev) (shown : Bool)
   /-- one handler ran. -/
   | call (kind : Kind) (win : Id) (idx : Nat) (entry : Nat) (ret : Bool) (ev : Ev)
   | destroyed (win : Id)
@@ -313,9 +314,22 @@ def bindingsOf (binds : Array Binding) (kind : Kind) (win : Id) : List Nat :=
     | some b => b.win = win && b.kind = kind
     | none => false
 
+/-- `id` is live and visible, and so is every window on its parent chain. -/
+def visibleChain (t : Tree) : Nat → Id → Bool
+  | 0, _ => false
+  | f + 1, id =>
+    match t.wins[id]? with
+    | none => false
+    | some w =>
+      if w.freed || !w.isVisible then false
+      else match w.parent with
+        | none => true
+        | some p => visibleChain t f p
+
 /-- `run_events_whilefalse(win, ev, info)`: the event is offered to `win`. -/
 def runHandlers (st : St) (kind : Kind) (win : Id) (ev : Ev) : Res (St × Bool) :=
-  runBindings (st.say (.offer kind win ev)) kind win ev (bindingsOf st.binds kind win)
+  runBindings (st.say (.offer kind win ev (visibleChain st.tree (treeFuel st.tree) win))) kind win ev
+    (bindingsOf st.binds kind win)
 
 /-- `_is_shown(win)`. -/
 def isShown (t : Tree) : Nat → Id → Res Bool
@@ -497,11 +511,11 @@ def mouseChildren (cfg : Cfg) (rec : MouseRec) (fuel : Nat) (st : St) (win : Id)
 /-- The window's own handlers; a claim is returned as a counted reference after the repair. -/
 def mouseOwn (cfg : Cfg) (st : St) (win : Id) (ev : Ev) : Out (St × Option Id) := do
   let own ← ownVisible cfg st.tree win
-  let (st, done) ← if own then (runHandlers st .mouse win ev : Out (St × Bool)) else pure (st, false)
-  if done then do
-    let st ← if cfg.counted then refWin st win else pure st      -- ret = tickit_window_ref(win)
-    pure (st, some win)
-  else pure (st, none)
+  if !own then pure (st, none) else
+  let (st, done) ← runHandlers st .mouse win ev
+  if !done then pure (st, none) else
+  let st ← (if cfg.counted then refWin st win else pure st : Res St)      -- ret = tickit_window_ref(win)
+  pure (st, some win)
 
 /-- After the children: if one of them took the event that is the result, otherwise the window's own handlers run. -/
 def mouseSelf (cfg : Cfg) (st : St) (win : Id) (ev : Ev) (r : Option Id) : Out (St × Option Id) :=
@@ -666,22 +680,10 @@ def offerAll (binds : Array Binding) (kind : Kind) : List (Id × Ev) → Array B
 /-- The offers recorded in a log, oldest first. -/
 def offers : List LogItem → List (Kind × Id × Ev)
   | [] => []
-  | .offer k w e :: rest => offers rest ++ [(k, w, e)]
+  | .offer k w e _ :: rest => offers rest ++ [(k, w, e)]
   | _ :: rest => offers rest
 
 /-! ### specification vocabulary: the reference offer orders of the property text -/
-
-/-- `id` is live and visible, and so is every window on its parent chain. -/
-def visibleChain (t : Tree) : Nat → Id → Bool
-  | 0, _ => false
-  | f + 1, id =>
-    match t.wins[id]? with
-    | none => false
-    | some w =>
-      if w.freed || !w.isVisible then false
-      else match w.parent with
-        | none => true
-        | some p => visibleChain t f p
 
 /-- Run `g` over a list and concatenate (`none` as soon as one of them is `none`). -/
 def visitList {α : Type} (g : Id → Option (List α)) : List Id → Option (List α)
